@@ -359,6 +359,29 @@ BB_FIELDS = [
     ('istartbb', None, ['istartbb'], 'int'), ('spmax', None, ['spmax'], 'double'),
 ]
 BB_ARRAYS = {'spthe1': 1, 'spthe2': 2}
+BB_M2 = (4, 5, 6, 8, 13, 14, 15, 16, 19)   # modes with a sampled second energy
+
+
+def bb_plan():
+    """(cut index, legacy mode) pairs of the decay0_bb proof: one query per cut point and mode; a cut point that a mode
+    cannot reach (asserted on arrival by the mode invariants of the cut) has no query for that mode"""
+    out = []
+    for k in range(len(BB_CUTS) + 1):
+        name = (['entry'] + BB_CUTS)[k]
+        for m in range(1, 21):
+            if k > 0 and m in (9, 11, 12):
+                continue      # fixed-energy modes return from the entry segment
+            if name == 'label_4' and m != 20:
+                continue
+            if name in ('bx_loop3_head', 'label_2') and m not in BB_M2:
+                continue
+            if name == 'label_3' and m in (10, 20):
+                continue
+            out.append((k, name, m))
+    return out
+
+
+BB_CUTS = ['bx_loop1_head', 'bx_loop2_head', 'label_1', 'label_4', 'bx_loop3_head', 'label_2', 'label_3']
 WL = 6   # array writes per segment
 
 
@@ -439,20 +462,20 @@ def fun_ids(db):
     return ids
 
 
-def build_bb(db, prog, propid='C02', only=None):
+def build_bb(db, prog, propid='C02', only=None, mode=None):
     E, S = bx2c.E, bx2c.S
     old = (rel.NA, )
     rel.NA = 24
     global NA
     NA = 24
     try:
-        return _build_bb(db, prog, propid, only)
+        return _build_bb(db, prog, propid, only, mode)
     finally:
         rel.NA = old[0]
         NA = old[0]
 
 
-def _build_bb(db, prog, propid, only=None):
+def _build_bb(db, prog, propid, only=None, mode=None):
     T = db['types']
     pairing = rel.Pairing(db, prog)
     fx = db['funcs']['decay0_bb']
@@ -489,7 +512,11 @@ def _build_bb(db, prog, propid, only=None):
             skip.add(r_)
         if cm:
             G.append('static %s %s;' % (ct, cm))
-        setup.append('  { %s v = nondet_%s(); %s }' % (ct, ct, ' '.join('%s = v;' % t for t in targets)))
+        if fld == 'modebb' and mode is not None:
+            # one query per legacy mode: the mode is a constant, the other 19 branches fold away
+            setup.append('  { int v = %d; %s }' % (mode, ' '.join('%s = v;' % t for t in targets)))
+        else:
+            setup.append('  { %s v = nondet_%s(); %s }' % (ct, ct, ' '.join('%s = v;' % t for t in targets)))
         for t in targets[1:]:
             checks.append(('state ' + fld.split('.')[-1], 'bx_same((double)xs.%s, (double)%s)' % (fld, t)))
     # array write logs and appended particles
@@ -506,7 +533,20 @@ def _build_bb(db, prog, propid, only=None):
              'transform_x': lambda b: rewrite_arrays(b, 'x'), 'transform_r': lambda b: rewrite_arrays(b, 'r'),
              'inline_x': ('particle__ctor', 'particle__set_time', 'particle__set_code', 'particle__set_momentum', 'particle__set_px',
                           'particle__set_py', 'particle__set_pz'),
-             'cutmap': {'bx_loop4_head': 'label_2', 'bx_loop5_head': 'label_3'}}
+             'cutmap': {'bx_loop4_head': 'label_2', 'bx_loop5_head': 'label_3'},
+             'rename_x': {'imax': 'bx_dohi1'},
+             'assume_no_exc': 'the NaN guard on e2 in decay0_bb does not fire (finite bbpars; the reference has no such guard)',
+             'dead_at': {'bx_loop3_head': ['e2'], 'label_2': ['e2', 'fe2'], '@exit': ['e2']},
+             'cut_invariants': {}}
+    zinv = ('helpbb.Zd == Zdbb (set on entry of every call)', 'bx_same(xs.bx_base_helpbb.Zd, xs.Zdbb)', 'xs.bx_base_helpbb.Zd = xs.Zdbb; cm_helpbb_0 = xs.Zdbb;')
+    for l_ in BB_CUTS:
+        hooks['cut_invariants'][l_] = [zinv]
+    m2 = (4, 5, 6, 8, 13, 14, 15, 16, 19)
+    for l_ in ('bx_loop3_head', 'label_2'):
+        hooks['cut_invariants'][l_].append(('only the modes with a sampled second energy get here', '(' + ' || '.join('xs.modebb == %d' % m_ for m_ in m2) + ')'))
+    hooks['cut_invariants']['label_4'].append(('only mode 20 gets here', 'xs.modebb == 20'))
+    for l_ in ('bx_loop1_head', 'bx_loop2_head'):
+        hooks['cut_invariants'][l_].append(('imax == (int)(e0*1000.) on both sides', 'x_imax == (int)bx_mul(xs.bx_base_helpbb.e0, 1000.0) && r_bx_dohi1 == x_imax'))
     pr = bx2c.Printer(T, bx2c.Opts())
     # event_.add_particle(part): the C++ side of "append to the event record"
     g = db['funcs']['event__add_particle']
